@@ -44,3 +44,15 @@ open UtilModel UtilModel.Seq
 #print axioms UtilModel.C20_accepted_ioproxy
 #print axioms UtilModel.C20_accepted_unique
 #print axioms UtilModel.acceptsH_sound
+#print axioms UtilModel.reject_sound
+#print axioms UtilModel.Seq.detModel_complete
+#print axioms UtilModel.complete_ioseek
+#print axioms UtilModel.reject_sound_ioseek
+#print axioms UtilModel.complete_iosizer
+#print axioms UtilModel.reject_sound_iosizer
+#print axioms UtilModel.complete_iocloser
+#print axioms UtilModel.reject_sound_iocloser
+#print axioms UtilModel.complete_ioproxy
+#print axioms UtilModel.reject_sound_ioproxy
+#print axioms UtilModel.complete_unique
+#print axioms UtilModel.reject_sound_unique
